@@ -100,3 +100,19 @@ def run(F, R, tier):
         if g:
             inits = [H.render(x.get("init")) for x in H.walk(H.body_of(g)) if x.get("k") == "let" and x.get("pat", {}).get("name") == "globals"]
             R.ob("globals-size", "%s builds globals with GLOBALS_SIZE entries" % fn, inits == ["vec::from_elem(data, GLOBALS_SIZE)"], str(inits), F.loc(g))
+    # ---- the session's constant pool and global store only grow ------------------------------------------------------------------
+    # Code of an accepted line stays alive in closures and refers to constants by pool index and to globals by slot: the
+    # REPL driver (main.rs) never shrinks or reorders a Vec<Rc<Object>> it carries from line to line (truncate / clear /
+    # pop / remove / drain / retain / split_off / swap / sort); a rejected line is undone by putting back the saved copy.
+    SHRINK = ("truncate", "clear", "pop", "remove", "swap_remove", "drain", "retain", "retain_mut", "split_off", "dedup", "swap", "sort", "sort_by", "reverse", "rotate_left", "rotate_right", "resize")
+    shr = []
+    for p_, g_ in sorted(F.fns.items()):
+        if not g_["file"].endswith("src/main.rs") or H.body_of(g_) is None:
+            continue
+        for c in H.walk(H.body_of(g_)):
+            if c.get("k") == "mcall" and c["m"] in SHRINK:
+                rty = (c.get("recv_ty") or c["recv"].get("ty") or "")
+                if "Rc<object::Object>" in rty and ("Vec<" in rty or "[" in rty):
+                    shr.append("%s: %s.%s(..)" % (H.last(p_), H.render(c["recv"])[:30], c["m"]))
+    R.ob("session-pools-append-only", "the REPL driver never shrinks or reorders the constant pool / global store it carries between lines", not shr,
+         "; ".join(shr)[:300])
